@@ -452,3 +452,104 @@ def rule_rep_edge(ctx: RuleContext, p: Program, rid: str) -> None:
     fn = p.method(c, 'last_token', inherited=False)
     ctx.check(problem is None, rid, 'models.internal.repeated:Repeated.first_token / last_token', problem or 'place-holder .. last token of the last item',
               f'Repeated: {problem}', fn.where if isinstance(fn, FuncInfo) else '', note='0, 1, 3 items')
+
+
+def rule_txn_sem(ctx: RuleContext, p: Program, rid: str) -> None:
+    """the hand-written constructors of Transaction: which of the two header strings is the payee and which the narration"""
+    from .tokenstore import TS
+    ctx.rule(rid, 'Transaction.from_parsed_children and Transaction.from_children, interpreted with the generated base constructor as a recorder: of the two '
+                  'header strings the grammar delivers, a lone string is the narration (payee slot empty) and two strings are payee then narration, '
+                  'every other child handed on in its position; from_children hands payee and narration to the slots of those names, supplies an '
+                  'empty narration exactly when a payee comes without one, and passes every keyword argument on under its own name')
+    ts = TS(p)
+    c = p.cls('Transaction', 'models.transaction')
+    fpc = c.attrs.get('from_parsed_children')
+    fc = c.attrs.get('from_children')
+    if not isinstance(fpc, FuncInfo) or not isinstance(fc, FuncInfo):
+        raise AnalysisError('TXN-SEM: Transaction.from_parsed_children / from_children not found in models/transaction.py')
+    calls: list = []
+
+    class Interp(possem.PosInterp):
+        tag = 'TXN-SEM'
+
+        def expr(self, e: Any, env: dict) -> Any:                 # type: ignore[override]
+            if isinstance(e, ast.Call) and isinstance(e.func, ast.Attribute) and isinstance(e.func.value, ast.Call) and norm(e.func.value.func) == 'super':
+                args: list = []
+                for a in e.args:
+                    if isinstance(a, ast.Starred):
+                        args.extend(self.iter_of(self.expr(a.value, env), e))
+                    else:
+                        args.append(self.expr(a, env))
+                kw = {k.arg: self.expr(k.value, env) for k in e.keywords if k.arg}
+                calls.append((e.func.attr, args, kw))
+                return possem.Obj('Built', {}, 'the transaction')
+            if isinstance(e, ast.Call) and isinstance(e.func, ast.Attribute) and e.func.attr == 'from_value' and norm(e.func.value).endswith('EscapedString'):
+                return possem.Obj('Str', {'value': self.expr(e.args[0], env), 'made': True}, 'a new string token')
+            return super().expr(e, env)
+
+        def truth(self, v: Any, node: Any) -> bool:               # type: ignore[override]
+            if isinstance(v, possem.Obj):
+                return True
+            return super().truth(v, node)
+
+    clsobj = possem.Obj('TransactionClass', {}, 'cls')
+    problem = None
+    for has1 in (False, True):
+        for has2 in (False, True):
+            store = possem.Obj('Store', {}, 'store')
+            lead, date, flag = (possem.Obj('Child', {}, n_) for n_ in ('leading comment', 'date', 'flag'))
+            s1 = possem.Obj('Str', {'value': 'first'}, 'the first string') if has1 else None
+            s2 = possem.Obj('Str', {'value': 'second'}, 'the second string') if has2 else None
+            rest = [possem.Obj('Child', {}, f'child{i}') for i in range(4)]
+            calls.clear()
+            try:
+                Interp(ts, [], module=c.module).call_function(fpc, [clsobj, store, lead, date, flag, None, s1, s2, *rest], {})
+            except possem.Raised as ex:
+                problem = problem or f'from_parsed_children with {int(has1) + int(has2)} string(s): raises {ex}'
+                continue
+            if len(calls) != 1 or calls[0][0] != 'from_parsed_children':
+                problem = problem or 'from_parsed_children does not hand on to the generated constructor exactly once'
+                continue
+            a = calls[0][1]
+            want_p, want_n = (s1, s2) if has1 and has2 else (None, s1) if has1 else (None, s2)
+            show = f'header strings delivered: {"first" if has1 else "-"}, {"second" if has2 else "-"}'
+            if len(a) != 11 or a[0] is not store or a[1] is not lead or a[2] is not date or a[3] is not flag or any(x is not y for x, y in zip(a[7:], rest)):
+                problem = problem or f'{show}: the other children are not handed on in their positions'
+            elif a[4] is not None or a[5] is not want_p or a[6] is not want_n:
+                problem = problem or (f'{show}: the slots become ({getattr(a[4], "label", a[4])}, {getattr(a[5], "label", a[5])}, {getattr(a[6], "label", a[6])}); expected '
+                                      f'(None, {getattr(want_p, "label", None)}, {getattr(want_n, "label", None)}) -- a lone string is the narration, two strings are payee and narration')
+    ctx.check(problem is None, rid, 'models.transaction:Transaction.from_parsed_children', problem or 'lone string = narration; two = payee, narration',
+              f'Transaction.from_parsed_children: {problem}', fpc.where, note='4 presence combinations')
+    problem = None
+    kwnames = [a.arg for a in fc.node.args.kwonlyargs]
+    for hasp in (False, True):
+        for hasn in (False, True):
+            date, flag, postings = (possem.Obj('Child', {}, n_) for n_ in ('date', 'flag', 'postings'))
+            pay = possem.Obj('Str', {'value': 'P'}, 'the payee') if hasp else None
+            nar = possem.Obj('Str', {'value': 'N'}, 'the narration') if hasn else None
+            kws = {k: possem.Obj('Kw', {}, f'argument {k}') for k in kwnames}
+            calls.clear()
+            try:
+                Interp(ts, [], module=c.module).call_function(fc, [clsobj, date, flag, pay, nar, postings], dict(kws))
+            except possem.Raised as ex:
+                problem = problem or f'from_children(payee {"given" if hasp else "None"}, narration {"given" if hasn else "None"}): raises {ex}'
+                continue
+            if len(calls) != 1 or calls[0][0] != 'from_children':
+                problem = problem or 'from_children does not hand on to the generated constructor exactly once'
+                continue
+            a, kw = calls[0][1], calls[0][2]
+            show = f'payee {"given" if hasp else "None"}, narration {"given" if hasn else "None"}'
+            if len(a) != 6 or a[0] is not date or a[1] is not flag or a[2] is not None or a[5] is not postings:
+                problem = problem or f'{show}: date / flag / the unused string slot / postings are not handed on in their positions'
+            elif a[3] is not pay:
+                problem = problem or f'{show}: the payee slot receives {getattr(a[3], "label", a[3])}'
+            elif hasn and a[4] is not nar:
+                problem = problem or f'{show}: the narration slot receives {getattr(a[4], "label", a[4])}'
+            elif not hasn and hasp and not (isinstance(a[4], possem.Obj) and a[4].f.get('made') and a[4].f.get('value') == ''):
+                problem = problem or f'{show}: a payee without narration needs an empty narration (one string alone reads as the narration); the slot receives {getattr(a[4], "label", a[4])}'
+            elif not hasn and not hasp and a[4] is not None:
+                problem = problem or f'{show}: a narration is invented ({getattr(a[4], "label", a[4])})'
+            elif set(kw) != set(kwnames) or any(kw[k] is not kws[k] for k in kwnames):
+                problem = problem or f'{show}: keyword arguments are not passed on under their own names ({sorted(k for k in kwnames if kw.get(k) is not kws[k])})'
+    ctx.check(problem is None, rid, 'models.transaction:Transaction.from_children', problem or 'payee / narration to their slots; keywords under their names',
+              f'Transaction.from_children: {problem}', fc.where, note='4 presence combinations')
